@@ -19,10 +19,30 @@ func withinRole(c *core.Ctx, fn *ssa.Function, ok func(*ssa.Function) bool, dept
 		}
 		return false
 	}
-	if fn.Object() == nil || fn.Object().Exported() || len(c.FuncValueUses(fn)) != 0 {
+	if fn.Object() == nil || fn.Object().Exported() {
 		return false
 	}
 	callers := c.Callers(fn)
+	if uses := c.FuncValueUses(fn); len(uses) != 0 {
+		// an entry of a package-level dispatch table: whoever reads the table can run it
+		var inInit []ssa.Instruction
+		for _, u := range uses {
+			if g := u.Parent(); g != nil && g.Name() == "init" && g.Signature.Recv() == nil && g.Pkg == fn.Pkg {
+				inInit = append(inInit, u)
+			} else if g != nil && g.Pkg == fn.Pkg && g != fn {
+				callers = append(callers, g) // a dispatcher of the package that hands the function out: it runs for whoever calls the dispatcher
+			} else {
+				return false
+			}
+		}
+		if len(inInit) > 0 {
+			readers, ok := tableReaders(c, fn, inInit)
+			if !ok {
+				return false
+			}
+			callers = append(callers, readers...)
+		}
+	}
 	if len(callers) == 0 {
 		return false
 	}
@@ -35,4 +55,122 @@ func withinRole(c *core.Ctx, fn *ssa.Function, ok func(*ssa.Function) bool, dept
 		}
 	}
 	return true
+}
+
+// tableReaders: every use of fn as a value happens in its package's initializer and ends up in package-level
+// variables (a map, slice or struct of functions built once); the result lists the functions that read those variables.
+func tableReaders(c *core.Ctx, fn *ssa.Function, uses []ssa.Instruction) ([]*ssa.Function, bool) {
+	var init *ssa.Function
+	for _, u := range uses {
+		p := u.Parent()
+		if p == nil || p.Name() != "init" || p.Signature.Recv() != nil || p.Pkg != fn.Pkg {
+			return nil, false
+		}
+		init = p
+	}
+	// forward taint inside the initializer, from the function value to the globals it is stored into
+	tainted := map[ssa.Value]bool{}
+	base := func(v ssa.Value) ssa.Value {
+		for i := 0; i < 8; i++ {
+			switch x := v.(type) {
+			case *ssa.FieldAddr:
+				v = x.X
+			case *ssa.IndexAddr:
+				v = x.X
+			default:
+				return v
+			}
+		}
+		return v
+	}
+	isFn := func(v ssa.Value) bool {
+		for i := 0; i < 4 && v != nil; i++ {
+			if f, ok := v.(*ssa.Function); ok {
+				if o := f.Origin(); o != nil {
+					f = o
+				}
+				return f == fn
+			}
+			switch x := v.(type) {
+			case *ssa.ChangeType:
+				v = x.X
+			case *ssa.MakeInterface:
+				v = x.X
+			case *ssa.MakeClosure:
+				v = x.Fn
+			default:
+				return false
+			}
+		}
+		return false
+	}
+	globals := map[*ssa.Global]bool{}
+	for changed, rounds := true, 0; changed && rounds < 8; rounds++ {
+		changed = false
+		mark := func(v ssa.Value) {
+			if v != nil && !tainted[v] {
+				tainted[v] = true
+				changed = true
+			}
+		}
+		for _, b := range init.Blocks {
+			for _, in := range b.Instrs {
+				switch x := in.(type) {
+				case *ssa.MapUpdate:
+					if isFn(x.Value) || tainted[x.Value] {
+						mark(x.Map)
+					}
+				case *ssa.Store:
+					if isFn(x.Val) || tainted[x.Val] {
+						if g, ok := x.Addr.(*ssa.Global); ok {
+							if !globals[g] {
+								globals[g] = true
+								changed = true
+							}
+						} else {
+							mark(base(x.Addr))
+						}
+					}
+				case *ssa.Slice:
+					if tainted[x.X] {
+						mark(x)
+					}
+				case *ssa.ChangeType:
+					if tainted[x.X] {
+						mark(x)
+					}
+				case *ssa.MakeInterface:
+					if tainted[x.X] {
+						mark(x)
+					}
+				case *ssa.UnOp:
+					if tainted[x.X] {
+						mark(x)
+					}
+				}
+			}
+		}
+	}
+	if len(globals) == 0 {
+		return nil, false
+	}
+	var readers []*ssa.Function
+	seen := map[*ssa.Function]bool{}
+	for _, f := range c.Scope {
+		if f == init {
+			continue
+		}
+		for _, b := range f.Blocks {
+			for _, in := range b.Instrs {
+				var ops []*ssa.Value
+				for _, op := range in.Operands(ops) {
+					if g, ok := (*op).(*ssa.Global); ok && globals[g] && !seen[f] {
+						seen[f] = true
+						readers = append(readers, f)
+					}
+				}
+			}
+		}
+	}
+	return readers, len(readers) > 0
 }
